@@ -17,6 +17,7 @@ inductive Member where
   | ctor          -- __init__ / constructor / fn new
   | property      -- @property getter / `get x()` accessor
   | static        -- @staticmethod / static method / associated fn without self
+  | setter        -- Python `@x.setter` / `@x.deleter` member, TypeScript `set x(v)` accessor: a public method in both
   | field         -- a data attribute / field line (never a method)
   deriving DecidableEq, Repr
 
@@ -28,6 +29,7 @@ def countable : Lang → Member → Bool
   | _, .pub => true
   | _, .asyncPub => true
   | _, .static => true
+  | _, .setter => true         -- only the `@property` getter is exempt in Python; a `set x(v)` is a method_definition
   | .py, .property => false      -- has_property_decorator
   | .ts, .property => true       -- a `get x()` accessor is a method_definition with a public name
   | .rs, .property => true       -- (rendered as an ordinary getter fn)
